@@ -2,7 +2,9 @@ E, CC, G, D, M = 'energy.py', 'conformation_container.py', 'group.py', 'determin
 VARIANTS = [
     {'name': 'revert-fix-F7b-find-group', 'rule': 'C06.R1',
      'edits': [(CC, """            if (group_.atom.residue_label == group.atom.residue_label
-                    and group_.atom.icode == group.atom.icode):""", """            if group_.atom.residue_label == group.atom.residue_label:""")]},
+                    and group_.atom.icode == group.atom.icode
+                    and group_.atom.res_name == group.atom.res_name):""", """            if (group_.atom.residue_label == group.atom.residue_label
+                    and group_.atom.res_name == group.atom.res_name):""")]},
     {'name': 'repair-F7a-desolvation-clears-finding', 'expect': 'known-cleared', 'finding': 'F7a',
      'edits': [(E, """        if (atom.res_num == group.atom.res_num
                 and atom.chain_id == group.atom.chain_id):""", """        if (atom.res_num == group.atom.res_num
